@@ -80,24 +80,13 @@ def run_replicas(binp, hist, outdir, specs, quiet=False, timeout=3000, repeat=1)
 
 # ---------------------------------------------------------------- classification of a differing step
 
-# Differences that match an OPEN entry of known_findings.json.  Each class is recognised by the exact
-# SHAPE of the two error texts (never by message type alone), so that any other difference stays a
-# violation.  The four order-dependent results found while building this check were repaired in /repo
-# (9d6116b, 7ea9e44, 281c379, 897c9ff) and are compared raw.  One remains open:
-#   peer-export-safe-chain: validateChainIsPeerExportSafe ranges over the chain's routers / splitters /
-#   resolvers (maps) and returns the first complaint; both replicas reject the write, name the SAME
-#   exported service, and differ only in WHICH of its six fixed complaints they report.
-_PES = re.compile(r'^error "peer exported service \\"((?:(?!\\").)*)\\" contains '
-                  r'(cross-datacenter resolver redirect|cross-peer resolver redirect|cross-partition resolver redirect|'
-                  r'cross-datacenter failover|cross-partition route destination|cross-partition split destination)"$')
-
-
-def _peer_export_safe(ra, rb):
-    a, b = _PES.match(ra), _PES.match(rb)
-    return bool(a and b and a.group(1) == b.group(1) and a.group(2) != b.group(2))
-
-
-ERROR_CLASSES = [("peer-export-safe-chain", _peer_export_safe)]
+# Differences that match an OPEN entry of known_findings.json would be listed here as (class, predicate on
+# the two result texts) -- recognised by the exact SHAPE of the texts, never by message type alone.  There
+# is none: the order-dependent results found by this check (UnassignedFrom in map order; error texts naming
+# the first invalid metadata pair, the missing JWT providers, the first failing discovery chain, the first
+# complaint of validateChainIsPeerExportSafe) were repaired in /repo (9d6116b, 7ea9e44, 281c379, 897c9ff,
+# ed6a743) and every result is compared raw -- list orders and error texts included.
+ERROR_CLASSES = []
 
 
 def step_core(s):
